@@ -86,6 +86,9 @@ def run(ck):
 
     r5_unchecked(ck, w)
     r7_uncompressed_form(ck, w)
+    r8_jacobian(ck, w)
+    r9_blst_batches(ck, w)
+    r10_canonical_delegates(ck, w)
     from . import c10
     c10.eval_nesting(ck, w, 'C11', 'C11.N1')
     from ..engines import ziplint
@@ -150,3 +153,95 @@ def r7_uncompressed_form(ck, w, rule='C11.R7'):
                   f'{f["_nid"]} hands the buffer to blst_p*_deserialize without testing the compression flag: a compressed encoding (plus ignored bytes) is accepted '
                   f'by the uncompressed / raw decoders', hirq.fn_loc(f))
     ck.floor(rule, 'uncompressed decoders', n, 2)
+
+
+ARITH = ('::Mul::mul', '::MulAssign::mul_assign', '::square', '::invert', '::Add::add', '::Sub::sub', '::double', '::Neg::neg')
+
+
+def r8_jacobian(ck, w, rule='C11.R8'):
+    """coordinate accessors agree with the representation they wrap"""
+    ck.rule(rule, 'blst keeps G1 / G2 points in Jacobian coordinates (x = X/Z^2, y = Y/Z^3).  CurveExt::jacobian_coordinates and CurveExt::new_jacobian of the blst-backed '
+                  'groups therefore hand the stored coordinates through: no field multiplication, squaring or inversion between the accessors x()/y()/z() and the '
+                  'returned triple, nor between the arguments and from_raw_unchecked.  (The derive macro of the other curves stores homogeneous coordinates and '
+                  'converts; it is not in scope of this rule.)')
+    n = 0
+    for f in w.all_fns(['curves']):
+        if 'bls12_381/g' not in f['file'] or f.get('name') not in ('jacobian_coordinates', 'new_jacobian') or '::tests' in f['_nid']:
+            continue
+        n += 1
+        ar = sorted({short(callee(c) or '') for c in hirq.calls(f['body']) if (callee(c) or '').endswith(ARITH)})
+        ar += [f'operator {x["op"]}' for x in walk(f['body']) if x.get('k') == 'bin' and x.get('op') in ('*', '+', '-')]
+        ck.record(rule, f'{f["_xid"]}:no-conversion', not ar, 'hands the stored (Jacobian) coordinates through',
+                  f'{f["_nid"]} applies {ar} to the coordinates: blst points are Jacobian already, a conversion on top returns / accepts coordinates of another system '
+                  f'(X*Z, Y*Z^2 instead of X, Y)', hirq.fn_loc(f))
+    ck.floor(rule, 'Jacobian accessors / constructors of G1 and G2', n, 4)
+
+
+def r9_blst_batches(ck, w, rule='C11.R9'):
+    """the blst point-array routines index their first element"""
+    from ..core import peel
+    from ..engines import taint
+    ck.rule(rule, 'blst::p1_affines::from / p2_affines::from (and the Pippenger `mult` behind them) index the first point of the slice they receive: every function of '
+                  'bls12_381/g1.rs, g2.rs that calls them first leaves on the empty input (an `if` with an escaping arm whose condition tests is_empty() or compares '
+                  'a length with 0).  In multi_exp the common length n = min(points, scalars) bounds BOTH arguments (it reaches slice::from_raw_parts and the '
+                  'scalar slice), otherwise surplus points panic inside blst while surplus scalars are silently ignored.')
+    n = 0
+    for f in w.all_fns(['curves']):
+        if 'bls12_381/g' not in f['file'] or '::tests' in f['_nid']:
+            continue
+        if not any((callee(c) or '').endswith(('p1_affines::from', 'p2_affines::from', 'p1_affines as core::convert::From>::from', 'p2_affines as core::convert::From>::from'))
+                   or 'p1_affines' in (callee(c) or '') and (callee(c) or '').endswith('::from') or 'p2_affines' in (callee(c) or '') and (callee(c) or '').endswith('::from')
+                   for c in hirq.calls(f['body'])):
+            continue
+        n += 1
+        guard = False
+        for x in walk(f['body']):
+            if x.get('k') == 'if' and taint.diverges(x['a']):
+                cond = list(walk(x['c']))
+                if any((callee(c) or '').endswith('::is_empty') for c in cond if c.get('k') in ('call', 'mcall')) or \
+                        any(c.get('k') == 'bin' and c.get('op') in ('==', '<', '<=') and (peel(c['b']).get('v') in ('i:0', 'i:1') or peel(c['a']).get('v') == 'i:0') for c in cond):
+                    guard = True
+        ck.record(rule, f'{f["_xid"]}:empty-input', guard, 'leaves on the empty input before the blst point-array conversion',
+                  f'{f["_nid"]} hands its points to blst p*_affines::from without an escaping test for the empty input: blst indexes points[0], the empty sum / empty '
+                  f'batch panics', hirq.fn_loc(f))
+        if f.get('name') == 'multi_exp':
+            from ..engines import valflow
+            nl = [b for b in walk(f['body']) if b.get('k') == 'let' and b.get('pat', {}).get('n') == 'n']
+            ok = False
+            if nl:
+                src = [('n', nl[0]['pat']['i'], 'usize')]
+                vf = valflow.ValFlow(f, sources=src)
+                hits = set()
+                for node, c, deps in vf.call_sites():
+                    if 'n' in deps and c.endswith('::from_raw_parts'):
+                        hits.add('points')
+                for x in walk(f['body']):
+                    if x.get('k') == 'index' and any(y.get('k') == 'local' and y.get('i') == nl[0]['pat']['i'] for y in walk(x['i'])):
+                        hits.add('scalars')
+                ok = hits == {'points', 'scalars'}
+            ck.record(rule, f'{f["_xid"]}:common-length', ok, 'n bounds the points (from_raw_parts) and the scalars (slice)',
+                      f'{f["_nid"]}: the common length n = min(points.len(), scalars.len()) does not bound both the point slice handed to blst and the scalar slice: '
+                      f'with more points than scalars blst panics (`scalars length mismatch`)', hirq.fn_loc(f))
+    ck.floor(rule, 'callers of the blst point-array conversion', n, 3)
+
+
+def r10_canonical_delegates(ck, w, rule='C11.R10'):
+    """decoders that delegate to a third-party parser re-encode and compare"""
+    ck.rule(rule, 'GroupEncoding::from_bytes of secp256k1 (K256, K256Affine) and Curve25519 (Curve25519, Curve25519Affine) delegate to k256 (SEC1 parsing: also takes '
+                  'the compact tag 0x05) and to curve25519-dalek (decompress: also takes an unreduced y and a sign bit on x = 0).  The decoder accepts the image of '
+                  'to_bytes only: it re-encodes the decoded point (to_bytes / compress) and compares the result with its input (`==`), and the outcome of that '
+                  'comparison decides the CtOption.')
+    n = 0
+    for f in w.all_fns(['curves']):
+        if f.get('name') != 'from_bytes' or '::tests' in f['_nid'] or not f['file'].endswith(('k256/curve.rs', 'curve25519/curve.rs', 'curve25519/affine.rs')):
+            continue
+        if 'GroupEncoding' not in f['_xid'] and 'GroupEncoding' not in f['id']:
+            continue
+        n += 1
+        calls = [callee(c) or '' for c in hirq.calls(f['body'])]
+        reenc = any(c.endswith(('::to_bytes', '::compress')) for c in calls)
+        cmp_ = any(x.get('k') == 'bin' and x.get('op') == '==' for x in walk(f['body'])) or any(c.endswith(('PartialEq::eq', 'ConstantTimeEq::ct_eq')) for c in calls)
+        ck.record(rule, f'{f["_xid"]}:re-encodes', reenc and cmp_, 're-encodes the decoded point and compares it with the input',
+                  f'{f["_nid"]} returns what the third-party parser accepts (re-encoding: {reenc}, comparison: {cmp_}): non-canonical encodings (SEC1 compact tag, '
+                  f'unreduced y, sign bit on x = 0) decode to valid points, several byte strings denote one point', hirq.fn_loc(f))
+    ck.floor(rule, 'delegating decoders', n, 4)
